@@ -604,7 +604,10 @@ func (srv *server) unregisterClient(client *client) {
 					}
 					srv.mu.Lock()
 					defer srv.mu.Unlock()
-					delete(srv.willMessage, clientID)
+					// a later connection of this client may have registered its own delayed will meanwhile
+					if srv.willMessage[clientID] == wm {
+						delete(srv.willMessage, clientID)
+					}
 					if !send {
 						return
 					}
